@@ -7,7 +7,7 @@ import math
 from .model import Model, AnalysisError
 from .interp import Unsupported, InterpRaise
 from .interp_ops import Interpreter, explore
-from .values import SymNum, Obj, ExcObj, ClassRef, ComplexVal, Maybe, HashVal
+from .values import SymNum, Obj, ExcObj, ClassRef, ComplexVal, Maybe, HashVal, UStr
 from .regions import IV, atoms_for
 from . import spec
 
@@ -24,7 +24,7 @@ def build(it: Interpreter, tree, share: dict = None) -> Obj:
     m = it.model
     k = tree[0]
     if k == "Variable":
-        o = it.call(cref(m, k), [tree[1]], {})
+        o = it.call(cref(m, k), [UStr(tree[1])], {})
     elif k == "Constant":
         v = tree[1]
         o = it.call(cref(m, k), [SymNum.of(v) if isinstance(v, float) else v], {})
@@ -56,7 +56,7 @@ def leaf_value(name: str, iv: IV):
 
 
 def make_point(it: Interpreter, val: dict) -> Obj:
-    return it.call(cref(it.model, "Point"), [], {k: leaf_value(k, iv) for k, iv in val.items()})
+    return it.call(cref(it.model, "Point"), [], {UStr(k): leaf_value(k, iv) for k, iv in val.items()})
 
 
 def exc_name(exc) -> str:
